@@ -71,9 +71,9 @@ def burst_fail_cases(ctx, n):
 
 
 def run(ctx):
-    extra = burst_fail_cases(ctx, ctx.budget(14, 200))
+    extra = burst_fail_cases(ctx, fakes.bud(ctx, 14, 200))
     out, cases, obs, usable, bad = fakes.drive(
-        ctx, "c14", SPEC, ctx.budget(24, 350), 0, ctx.budget(12, 768), RULE,
+        ctx, "c14", SPEC, fakes.bud(ctx, 24, 350), 0, fakes.bud(ctx, 12, 768), RULE,
         "an exception escaped the scheduling loop / an independent job was not executed / a downstream job was "
         "executed / the error does not name exactly the failed jobs", fail_p=0.85, extra_cases=extra)
     two = [i for i in usable if any(sum(1 for j in s["done"] if list(j) in [["n%d" % f[0], f[1]] for f in cases[i].get("fail") or []]) >= 2
